@@ -260,7 +260,7 @@ pub fn run(ctx: &Ctx) -> Report {
     st.sample(json!({"mini": ["Ins1a", "InsBatch03", "UpdKey1to5", "Reopen"]}));
 
     let max_ops = ctx.tier.pick(15, 40);
-    let v = search(ctx, "seq", ctx.tier.pick(12_000, 200_000), || seq::seq_case(W_DML, max_ops), |c: &SeqCase, st| {
+    let v = search(ctx, "seq", ctx.tier.pick(60_000, 600_000), || seq::seq_case(W_DML, max_ops), |c: &SeqCase, st| {
         st.eval();
         if st.wants_sample() && c.ops.len() > 5 && st.evaluations % 37 == 2 {
             st.sample(json!({"ops": c.ops.iter().map(|o| o.kind()).collect::<Vec<_>>()}));
